@@ -158,8 +158,18 @@ def one(ck, cls):
         if has_ctx and not direct:
             ctx = skip_copies(qa[2])
             ctx_app = is_call(ctx, "QCoreApplication::instance")
-            ctx_is_thread = any(is_this_field(x, T) for x in walk(ctx))
-            moves = [n for n in mv.calls() if name_is(n.get("callee"), ("QObject::moveToThread", "moveToThread")) and any(is_this_field(x, T) for x in walk(n.get("obj") or {}))
+            def ident(e_):
+                """the object an expression designates: the thread field, or a local / parameter (a helper's `thread`)"""
+                for x in walk(e_ or {}):
+                    if is_this_field(x, T):
+                        return ("field", T)
+                for x in walk(e_ or {}):
+                    if x.get("k") == "ref" and x.get("dk") in ("local", "param") and "QThread" in (x.get("type") or ""):
+                        return ("var", x.get("decl"))
+                return None
+            cid = ident(ctx)
+            ctx_is_thread = cid is not None
+            moves = [n for n in mv.calls() if name_is(n.get("callee"), ("QObject::moveToThread", "moveToThread")) and ident(n.get("obj")) == cid and cid is not None
                      and any(is_call(x, "QCoreApplication::instance") or (x.get("k") == "ref" and (x.get("name") or "") == "qApp") for x in walk(n.get("args", [{}])[0]))]
             differ = lambda n: True if (n.get("k") == "binop" and n.get("op") == "!=" and all(any(is_call(x, ("QObject::thread", "thread")) for x in walk(y or {})) for y in (n.get("lhs"), n.get("rhs")))) else \
                 (False if (n.get("k") == "binop" and n.get("op") == "==" and all(any(is_call(x, ("QObject::thread", "thread")) for x in walk(y or {})) for y in (n.get("lhs"), n.get("rhs")))) else None)
